@@ -22,6 +22,7 @@ EXPLANATION = (
     'written and read are compared with the frozen schema; byte-string tagging and the compact JSON encoding are checked structurally; legacy metadata fallbacks '
     'and the nonce layout agreement between encrypt and decrypt are checked. Rules C14.R1-R7.'
     ' Added with the seeded-defect rounds: complete final file records, handlers around source reads re-raise, input uniqueness, every upload publishes, completion flag.'
+    ' Round 6: queue hand-over never drops a chunk.'
 )
 NOT_DECIDED = 'that recorded ranges tile each file (arithmetic); that an independent reader/writer actually interoperates (execution)'
 TRUSTED = ['the documented scheme table frozen in this module (README, "High-level technical details")', 'json / base64 standard library behaviour', 'CPython ast']
